@@ -24,7 +24,7 @@
 (* N, W, Kind, VRegs, KRegs, MemSize are constants of one trace (one       *)
 (* vector type); the orchestrator writes the .cfg.                         *)
 (***************************************************************************)
-EXTENDS Avel, Json, IOUtils
+EXTENDS Avel, FP, Json, IOUtils
 
 Tr == ndJsonDeserialize(IOEnv.TRACE)
 
@@ -63,6 +63,13 @@ KStep(e, exp, act) ==
   IF Quiet(e) /\ MaskSeen(e, exp) THEN Accept /\ act
   ELSE Reject /\ ForceK(e)
 
+\* one float lane against FP.tla, in the machine's current rounding mode
+FLaneOK(o, a, b, r, m) == FPFactOK([o |-> o, a |-> a, b |-> b, r |-> r, rm |-> env, m |-> m, sig |-> "none"])
+\* predicates: the truth value FP.tla assigns (comparisons, quiet comparisons, mask(vector))
+FLanePred(o, a, b) == FPFactOK([o |-> o, a |-> a, b |-> b, r |-> 1, rm |-> env, m |-> 0, sig |-> "none"])
+FStep(e, okL) == IF Quiet(e) /\ (\A i \in 1..N : okL[i]) THEN Accept /\ SetVec(e.d, FromImage(e.r))
+                 ELSE Reject /\ ForceV(e)
+
 Step(e) ==
   CASE e.e = "setvec" -> Accept /\ SetVec(e.d, FromImage(e.r))
     [] e.e = "kset"   -> KStep(e, Bools(e.arg), KSet(e.k, Bools(e.arg)))
@@ -85,6 +92,16 @@ Step(e) ==
     [] e.e = "load"   -> VStep(e, AllLanes, LoadRes(e.p, e.n), Load(e.d, e.p, e.n))
     [] e.e = "store"  -> IF Quiet(e) /\ e.mem = StoreRes(e.a, e.p, e.n) THEN Accept /\ Store(e.a, e.p, e.n)
                          ELSE Reject /\ Force(V, K, [x \in 1..MemSize |-> e.mem[x]], IF e.rm \in Modes THEN e.rm ELSE env)
+    \* Float vector types (Kind = "f"): the lane semantics of FP.tla are relations accepted by postcondition (a NaN
+    \* payload, the sign of some zeros and min/max of a NaN are open), so a float step is accepted when every lane
+    \* satisfies the relation UNDER THE SPECIFICATION'S OWN ROUNDING MODE env and own operands, and the state then
+    \* takes the observed value.  Mask, memory and environment steps are the actions above, unchanged.
+    [] e.e = "fbin"  -> FStep(e, [i \in 1..N |-> FLaneOK(e.o, V[e.a][i], V[e.b][i], FromImage(e.r)[i], 0)])
+    [] e.e = "fun"   -> FStep(e, [i \in 1..N |-> FLaneOK(e.o, V[e.a][i], ZeroLane, FromImage(e.r)[i], 0)])
+    [] e.e = "fsel"  -> FStep(e, [i \in 1..N |-> FLaneOK(e.o, V[e.a][i], V[e.b][i], FromImage(e.r)[i], IF K[e.k][i] THEN 1 ELSE 0)])
+    [] e.e = "fb2v"  -> FStep(e, [i \in 1..N |-> FLaneOK("b2v", ZeroLane, ZeroLane, FromImage(e.r)[i], IF K[e.k][i] THEN 1 ELSE 0)])
+    [] e.e = "fcmp"  -> KStep(e, [i \in 1..N |-> FLanePred(e.o, V[e.a][i], V[e.b][i])], KSet(e.k, Bools(e.m)))
+    [] e.e = "fnz"   -> KStep(e, [i \in 1..N |-> FLanePred("nz", V[e.a][i], ZeroLane)], KSet(e.k, Bools(e.m)))
     \* gather / scatter: the driver builds the index register itself (an earlier setvec), always inside the arena
     [] e.e = "gather" -> IF GSDom(e.p, e.b, e.n) THEN VStep(e, AllLanes, GatherRes(e.p, e.b, e.n), Gather(e.d, e.p, e.b, e.n))
                          ELSE Reject /\ ForceV(e)
